@@ -77,6 +77,38 @@ class Env:
         self.keep = list(keep)
 
 
+# ---- chiral sources for the product routes (join / concatenate / |) ---------------------------------
+# a centre with four different substituents, not planar; atom 4 (H, exactly one bond) is the
+# attachment atom.  The second source is the first one moved by a PROPER rigid motion chosen so that
+# the two attachment bonds are parallel / antiparallel / in generic relative orientation.
+GEOMS = ["chiral-par", "chiral-anti", "chiral-gen"]
+CH_ELEMS = ["C", "F", "Cl", "O", "H"]
+CH_BONDS = [(0, 1), (2, 0), (0, 3), (4, 0)]  # stored directions mixed
+_C0 = (0.1 + 1e-9, 0.2, 0.3 + 1e-7)
+CH_XYZ = [_C0] + [tuple(_C0[i] + d[i] for i in range(3)) for d in ((1.3, 0.1, -0.4), (-0.7, 1.5, -0.5), (-0.6, -1.2, -0.45), (0.0, 0.0, 1.09))]
+CH_QS = [0.1 + 1e-9, -0.375 - 1e-7, 0.48123456789, 0.25 + 1e-9, -0.2 - 3e-9]
+CH_MOVE = {
+    # proper rotations with entries 0 / +-1 (det = +1), then a shift
+    "chiral-par": lambda p: (p[0] + 8.0, p[1] + 0.5, p[2] - 0.25),  # translation only: attachment bonds parallel
+    "chiral-anti": lambda p: (p[0] + 8.0, -p[1] + 0.5, -p[2] - 0.25),  # half turn about x: antiparallel
+    "chiral-gen": lambda p: (p[1] + 8.0, p[2] + 0.5, p[0] - 0.25),  # cyclic permutation of the axes: generic
+}
+_GEOM = "std"  # geometry of the sources being built for the current cell (set by run_cell)
+
+
+def _chiral():
+    return _GEOM != "std"
+
+
+def bonds_of():
+    return CH_BONDS if _chiral() else BONDS
+
+
+def ap_of():
+    """attachment atoms for join: (atom of a, atom of b)"""
+    return (4, 4) if _chiral() else AP
+
+
 POPS = ["full", "bare", "void"]
 """initial condition of the mutable containers AT COPY TIME:
 full : every attribute dictionary populated (flat values, nested dicts - one of them empty -, a nested
@@ -95,6 +127,14 @@ def _atoms(tag, seed, pop="full"):
         # label '' (None), atype Unknown = 0 (Regular); stereo / geom / formal_charge default to their falsy member
         Atom("H", isotope=0, label="", atype=AtomType.Unknown, formal_spin=1, attrib={"n": {"x": None}}),
     ]
+    if _chiral():
+        at = [
+            Atom("C", label=f"c0{tag}", atype=AtomType.sp3, stereo=AtomStereo.R, geom=AtomGeom.R4_Tetrahedral, attrib={"k": v, "n": {"x": [1, v]}}),
+            Atom("F", label=f"f1{tag}", attrib={"k": "f"}),
+            Atom("Cl", label=f"cl2{tag}", attrib={"n": {}}),
+            Atom("O", label=f"o3{tag}", formal_charge=-1, attrib={"k": 0}),
+            Atom("H", label=f"h4{tag}", attrib={"k": None}),
+        ]
     if pop != "full":
         for a in at:
             a.attrib = {}
@@ -113,13 +153,21 @@ def _bond_attrib(j, seed, pop):
 
 def _coords(seed, conf=0, tag=""):
     p = POSES[seed % len(POSES)]
+    if _chiral():
+        out = []
+        for q in CH_XYZ:
+            q = (q[0] + p[0], q[1] + p[1], q[2] + p[2])
+            if tag == "b":
+                q = CH_MOVE[_GEOM](q)
+            out.append([q[0], q[1], q[2] + 4.0 * conf])
+        return out
     dz = 4.0 * conf + (8.0 if tag == "b" else 0.0)
     return [[x + p[0], y + p[1], z + p[2] + dz] for x, y, z in XYZ]
 
 
 def _charges(conf=0, tag=""):
     off = (0.5 if tag == "b" else 0.0) + conf * 2.0
-    return [q + off for q in QS]
+    return [q + off for q in (CH_QS if _chiral() else QS)]
 
 
 def build_base(clsname, seed, tag="", pop="full"):
@@ -134,7 +182,7 @@ def build_base(clsname, seed, tag="", pop="full"):
     m = cls(_atoms(tag, seed, pop), name=f"src{tag}", charge=-1, mult=2, **kw)
     m.attrib.update(_mol_attrib(seed, pop))
     if issubclass(cls, Connectivity):
-        for j, (a, b) in enumerate(BONDS):
+        for j, (a, b) in enumerate(bonds_of()):
             bd = m.connect(a, b)
             if j == 0:
                 bd.label = f"b01{tag}"
@@ -454,7 +502,7 @@ def binary_apply(rname, a, b):
         return a | b
     if rname == "join":
         cls = Molecule if isinstance(a, Molecule) else Structure
-        return cls.join(a, b, AP[0], AP[1])
+        return cls.join(a, b, *ap_of())
     if rname == "ensemble-from-list":
         return ConformerEnsemble([a, b])
     raise HarnessError(rname)
@@ -501,8 +549,8 @@ def fidelity_product(rname, sa, sb, sp):
     if rname in ("concatenate", "or"):
         keep_a, keep_b = list(range(na)), list(range(nb))
     else:
-        keep_a = [i for i in range(na) if i != AP[0]]
-        keep_b = [i for i in range(nb) if i != AP[1]]
+        keep_a = [i for i in range(na) if i != ap_of()[0]]
+        keep_b = [i for i in range(nb) if i != ap_of()[1]]
     src_atoms = [sa["atoms"][i] for i in keep_a] + [sb["atoms"][i] for i in keep_b]
     if sp["n_atoms"] != len(src_atoms):
         return [("atoms", "len")]
@@ -760,7 +808,69 @@ def sig(kind, symptom):
 
 
 def run_cell(ctx, cell, report=True):
-    """executes one cell; returns an outcome digest"""
+    """executes one cell (with the source geometry the cell names); returns an outcome digest"""
+    global _GEOM
+    _GEOM = cell.get("geom", "std")
+    try:
+        return _run_cell(ctx, cell)
+    finally:
+        _GEOM = "std"
+
+
+_FRAG_DETAIL = {}
+
+
+def _det3(a, b, c):
+    return a[0] * (b[1] * c[2] - b[2] * c[1]) - a[1] * (b[0] * c[2] - b[2] * c[0]) + a[2] * (b[0] * c[1] - b[1] * c[0])
+
+
+def fragment_geometry(rname, a, b, p):
+    """every fragment of a product is a PROPER rigid image of its source: all distances inside the
+    fragment are the source's, and every signed volume (atom quadruple in list order) keeps its sign
+    and size - a mirror image has the same distances and fields, only the signed volumes flip.
+    (Where the fragments end up relative to each other is C12's subject.)"""
+    out = []
+    try:
+        ca, cb, cp = np.asarray(a.coords, float).tolist(), np.asarray(b.coords, float).tolist(), np.asarray(p.coords, float).tolist()
+    except Exception:
+        return out
+    na, nb = len(ca), len(cb)
+    if rname == "join":
+        keep_a = [i for i in range(na) if i != ap_of()[0]]
+        keep_b = [i for i in range(nb) if i != ap_of()[1]]
+    else:
+        keep_a, keep_b = list(range(na)), list(range(nb))
+    if len(cp) != len(keep_a) + len(keep_b):
+        return out  # reported by the record comparison
+    frags = [([ca[i] for i in keep_a], cp[: len(keep_a)]), ([cb[i] for i in keep_b], cp[len(keep_a) :])]
+    for k, (src_xyz, prd_xyz) in enumerate(frags):
+        m = len(src_xyz)
+        if m < 2 or any(x != x for r in src_xyz + prd_xyz for x in r):
+            continue
+        scale = max(1.0, max(abs(x) for r in src_xyz for x in r))
+        for i in range(m):
+            for j in range(i + 1, m):
+                ds = sum((src_xyz[i][t] - src_xyz[j][t]) ** 2 for t in range(3)) ** 0.5
+                dp = sum((prd_xyz[i][t] - prd_xyz[j][t]) ** 2 for t in range(3)) ** 0.5
+                if abs(ds - dp) > 1e-9 * scale:
+                    out.append(("fragment", k, "distances"))
+                    _FRAG_DETAIL[("fragment", k)] = f"distance between atoms {i} and {j} of fragment {k + 1}: {ds!r} in the source, {dp!r} in the product"
+                    break
+            else:
+                continue
+            break
+        for i in range(m - 3):
+            q = [i, i + 1, i + 2, i + 3]
+            vs = _det3(*[[src_xyz[q[t]][u] - src_xyz[q[0]][u] for u in range(3)] for t in (1, 2, 3)])
+            vp = _det3(*[[prd_xyz[q[t]][u] - prd_xyz[q[0]][u] for u in range(3)] for t in (1, 2, 3)])
+            if abs(vs) > 1e-6 and abs(vs - vp) > 1e-8 * max(1.0, abs(vs)) * scale:
+                out.append(("fragment", k, "handedness" if abs(vs + vp) <= 1e-8 * max(1.0, abs(vs)) * scale else "signed-volume"))
+                _FRAG_DETAIL[("fragment", k)] = f"signed volume of atoms {q} of fragment {k + 1}: {vs!r} in the source, {vp!r} in the product"
+                break
+    return out
+
+
+def _run_cell(ctx, cell):
     seed = ctx.seed
     src, route, muts, direction = cell["src"], cell["route"], cell["muts"], cell["dir"]
     sources, copies, kind, err, keep, nops = make_copy(ctx, cell)
@@ -781,7 +891,10 @@ def run_cell(ctx, cell, report=True):
     last_kind = kind if route[0] in BINARY else ur[route[-1]][0]
     checks = []  # (kind label, reference label, paths)
     if route[0] in BINARY:
-        checks.append((kind, "source", fidelity_product(route[0], s_before["source"], s_before["source_b"], s_before["copy"])))
+        fp = fidelity_product(route[0], s_before["source"], s_before["source_b"], s_before["copy"])
+        if route[0] != "ensemble-from-list":
+            fp = fp + fragment_geometry(route[0], sources[0].obj, sources[1].obj, result.obj)
+        checks.append((kind, "source", fp))
     elif len(route) == 1:
         checks.append((kind, "source", fidelity_unary(s_before["source"], s_before["copy"])))
     else:
@@ -802,7 +915,8 @@ def run_cell(ctx, cell, report=True):
             first = next(q for q in fd if norm_path(q) == p)
             ctx.violation(
                 sig(klabel, f"copy-differs:{p}"),
-                f"{'/'.join(route)} of a {src}: field {p} of the result differs from the {ref} (first at {first}: {_at(s_before[ref], first)!r} -> {_at(s_before['copy'], first)!r})",
+                f"{'/'.join(route)} of a {src}" + (f" [{cell['geom']}]" if cell.get("geom") else "") + f": field {p} of the result differs from the {ref} "
+                + (f"({_FRAG_DETAIL.get(first[:2], '')}: a fragment of the product is not a proper rigid image of its source)" if first[0] == "fragment" else f"(first at {first}: {_at(s_before[ref], first)!r} -> {_at(s_before['copy'], first)!r})"),
                 case,
                 repro=repro_of(cell, seed),
             )
@@ -889,7 +1003,7 @@ def run_cell(ctx, cell, report=True):
         if step_bad:
             bad = True
             break  # nothing is explored beyond a violating step
-    key = (src, cell.get("pop", "full"), "/".join(route), "+".join(muts), "/".join(dirs))
+    key = (src, cell.get("pop", "full"), cell.get("geom", "std"), "/".join(route), "+".join(muts), "/".join(dirs))
     if bad and len(route) == 1 and len(muts) == 1:
         ctx.add_note(f"dirty|{src}|{route[0]}")
     if changed_self:
@@ -935,7 +1049,32 @@ def repro_of(cell, seed):
         return f"# (no script: {type(e).__name__})"
 
 
+def _repro_chiral(cell, seed):
+    g = cell["geom"]
+    move = {"chiral-par": "p + [8.0, 0.5, -0.25]", "chiral-anti": "p * [1, -1, -1] + [8.0, 0.5, -0.25]", "chiral-gen": "p[:, [1, 2, 0]] + [8.0, 0.5, -0.25]"}[g]
+    call = {"join": "Molecule.join(a, b, 4, 4)", "concatenate": "Molecule.concatenate(a, b)", "or": "a | b"}[cell["route"][0]]
+    n1 = 4 if cell["route"][0] == "join" else 5
+    return "\n".join(
+        [
+            "import numpy as np",
+            "from molli.chem import *",
+            f"p = np.array({[list(x) for x in CH_XYZ]!r})   # C(F)(Cl)(O)H : a stereocentre; atom 4 (H) is the attachment atom",
+            "def build(xyz):",
+            "    m = Molecule([Atom(e) for e in ['C', 'F', 'Cl', 'O', 'H']], coords=xyz)",
+            "    for i, j in [(0, 1), (2, 0), (0, 3), (4, 0)]: m.connect(i, j)",
+            "    return m",
+            f"a, b = build(p), build({move})   # b = a moved by a proper rigid motion ({g}: attachment bonds {g.split('-')[1]})",
+            f"prod = {call}",
+            "vol = lambda x: float(np.linalg.det(np.asarray(x[1:4]) - np.asarray(x[0])))",
+            f"print('signed volume C,F,Cl,O   source a:', vol(a.coords), ' fragment 1 of the product:', vol(prod.coords[:4]))",
+            f"print('signed volume C,F,Cl,O   source b:', vol(b.coords), ' fragment 2 of the product:', vol(prod.coords[{n1}:{n1}+4]))",
+        ]
+    )
+
+
 def _repro_of(cell, seed):
+    if cell.get("geom"):
+        return _repro_chiral(cell, seed)
     src, route, muts, direction = cell["src"], cell["route"], cell["muts"], cell["dir"]
     pop = cell.get("pop", "full")
     dirs = cell.get("dirs") or [direction] * len(muts)
@@ -1066,6 +1205,12 @@ def cells(ctx):
                 for m in muts:
                     for d in ("copy", "source"):
                         out.append({"src": s, "pop": pop, "route": list(r), "muts": [m], "dir": d})
+                if pop == "full" and r[0] in ("join", "concatenate", "or"):
+                    # chiral sources, attachment bonds parallel / antiparallel / generic: is every fragment of
+                    # the product a proper rigid image of its source?  (decided when the product is made)
+                    for g in GEOMS:
+                        for d in ("copy", "source"):
+                            out.append({"src": s, "pop": pop, "geom": g, "route": list(r), "muts": ["coords[i]+="], "dir": d})
                 if pop == "void":
                     continue
                 # an annotation written on one side, the library routine that reads annotations on the other
@@ -1151,6 +1296,10 @@ def run(ctx):
         "for products (concatenate, |, join, ConformerEnsemble([..])) the atom and bond records, coordinate rows and partial "
         "charges of the atoms carried over are compared; name/charge/mult/attrib of a product and the geometry of a join are "
         "combination rules (C12), not copies",
+        "join / concatenate / | additionally run on CHIRAL sources whose attachment bonds are parallel, antiparallel and in generic "
+        "orientation; every fragment of the product must be a proper rigid image of its source: intra-fragment distances equal "
+        "(1e-9 relative) and signed volumes of atom quadruples equal in sign and size - where the fragments are placed relative "
+        "to each other stays C12's subject",
         "a | b of two Molecules returns a Structure, which has no partial charges: not compared for that route",
         "coordinates, partial charges and weights are compared bit for bit (NaN == NaN) on every route: none of them goes through "
         "a text or library format; the source values are not representable in float32 (1e-7 ... 1e3)",
@@ -1173,6 +1322,7 @@ def run(ctx):
     ctx.bound["routes"] = {s: ["/".join(r) for r in rs] for s, rs in routes_for.items()}
     ctx.bound["mutations"] = MUT_NAMES
     ctx.bound["populations_at_copy_time"] = POPS
+    ctx.bound["product_route_geometries"] = ["std"] + GEOMS
     ctx.bound["cross_histories"] = [list(c) for c in CROSS]
     nparts = 32 if ctx.thorough else 16
     parts = [p for p in (allc[i::nparts] for i in range(nparts)) if p]
@@ -1203,4 +1353,6 @@ def replay(ctx, case):
     cell = {"src": case["src"], "pop": case.get("pop", "full"), "route": list(case["route"]), "muts": list(case["muts"]), "dir": case["dir"]}
     if case.get("dirs"):
         cell["dirs"] = list(case["dirs"])
+    if case.get("geom"):
+        cell["geom"] = case["geom"]
     run_cell(ctx, cell)
